@@ -39,8 +39,8 @@ Reset == /\ Ev /\ S = "h.reset"
 
 \* the harness retired log files while the engine was closed: kevo keeps no persistent counter, the numbering may restart
 \* (outside C08); next = 0 means "unknown until the next record"
-Retired == /\ Ev /\ S = "h.retire" /\ next' = 0
-           /\ UNCHANGED <<mode, pend, synced, logged, rot, sst, renamed, tbl, cmp>>
+Retired == /\ Ev /\ S = "h.retire" /\ next' = 0 /\ synced' = 0     \* (and with it what counts as synced)
+           /\ UNCHANGED <<mode, pend, logged, rot, sst, renamed, tbl, cmp>>
 
 \* ---- write path
 Written == /\ Ev /\ S \in {"wal.append.written", "wal.batch.written"}
